@@ -1071,6 +1071,16 @@ class Structure(UniqueMixin, metaclass=StructMeta):
                     )
                 setattr(self, name, val)
             del bound.arguments["kwargs"]
+        for name, param in getattr(self, "__signature__").parameters.items():
+            if (
+                    bound.arguments.get(name) is Undefined
+                    and param.default is param.empty
+                    and param.kind is not param.VAR_KEYWORD
+            ):
+                # Undefined stands for "not supplied"
+                raise TypeError(
+                    f"{self.__class__.__name__}: missing a required argument: '{name}'"
+                )
 
         field_by_name = self.get_all_fields_by_name()
         defaults_fields = [
